@@ -1,0 +1,11 @@
+//go:build verif
+
+package accounts
+
+import "google.golang.org/grpc"
+
+// VerifInterceptors builds the two interceptors around injected Authenticate / Access implementations.
+// Verification hook: compiled only with the `verif` build tag.
+func VerifInterceptors(auth Authenticate, access Access) (grpc.UnaryServerInterceptor, grpc.StreamServerInterceptor) {
+	return unaryAuthInterceptor(auth, access), streamAuthInterceptor(auth, access)
+}
